@@ -200,6 +200,7 @@ pub fn run_property(def: &'static PropDef, tier: Tier, seed: u64, cases_override
                                 step: 0,
                                 detail: format!("shrunk case did not reproduce: {reason}"),
                             });
+                            let case = out.repro.clone().unwrap_or(case);
                             failures.lock().unwrap().push(Failure {
                                 case,
                                 violation,
